@@ -650,7 +650,7 @@ pub fn exec(w: &mut World, step: &Step, h: HostileOp) -> Outcome {
                 let kp = m.parse_key_package(&vkp).map_err(|e| e.to_string())?;
                 // group data: take it from a scratch group created through the public API
                 // mode 8: more relays than one of the backends stores for a group
-                let relays: Vec<nostr::RelayUrl> = if mode == 8 { (0..101).filter_map(|i| nostr::RelayUrl::parse(&format!("wss://r{i}.evil.example")).ok()).collect() } else { vec![crate::node::relay()] };
+                let relays: Vec<nostr::RelayUrl> = if mode == 8 { (0..101).filter_map(|i| nostr::RelayUrl::parse(&format!("wss://r{i}.evil.example")).ok()).collect() } else { vec![nostr::RelayUrl::parse("wss://relay.evil.sim.example").map_err(|e| e.to_string())?] };
                 let cfg = NostrGroupConfigData::new(format!("evil-{seed}"), "evil group".into(), None, None, None, relays, vec![attacker_pk]);
                 let scratch = m.create_group(&attacker_pk, vec![], cfg).map_err(|e| e.to_string())?;
                 let sg = m.load_mls_group(&scratch.group.mls_group_id).map_err(|e| e.to_string())?.ok_or("no scratch group")?;
